@@ -144,12 +144,12 @@ package utreexo
 //@   split forestRows 0 63
 
 //@ func RootPositions(numLeaves uint64, totalRows uint8) (rs []uint64)
-//@   requires totalRows <= 63
+//@   requires totalRows <= 64
 //@   ensures len(rs) <= int(totalRows) + 1
 //@   rac ensures numLeaves <= pow2(totalRows) ==> len(rs) == popcount(numLeaves)   // bounded (RAC): equivalence of two 64-bit adder networks is beyond the solvers
 //@   rac ensures forall r: hasRoot(numLeaves, r) ==> rs[popcount(numLeaves >> (r+1))] == rootPosS(numLeaves, r, totalRows)   // bounded (RAC): element clause
-//@   loop 1: unroll 64
-//@   split totalRows 0 63
+//@   loop 1: unroll 66
+//@   split totalRows 0 64
 
 //@ func subtreeRow(numLeaves uint64, subTree uint8) (res uint8)
 //@   requires numLeaves <= pow2(63)
@@ -284,12 +284,10 @@ package utreexo
 //@   loop 1: decreases maxa + maxb - j
 
 //@ func calculateHashes(numLeaves uint64, delHashes []Hash, proof Proof) (hp hashAndPos, roots []Hash, err error)
-//@   requires numLeaves <= pow2(63)
 //@   requires delHashes == nil || len(delHashes) == len(proof.Targets)
 //@   ensures err == nil ==> len(hp.positions) == len(hp.hashes)
 
 //@ func calculateHashesAndRootPositions(numLeaves uint64, delHashes []Hash, proof Proof) (hp hashAndPos, roots []Hash, rootPos []uint64, err error)
-//@   requires numLeaves <= pow2(63)
 //@   requires delHashes == nil || len(delHashes) == len(proof.Targets)
 //@   ensures err == nil ==> len(hp.positions) == len(hp.hashes)
 //@   ensures len(roots) == len(rootPos)
@@ -302,7 +300,6 @@ package utreexo
 //@   loop 3: decreases int(totalRows) + 1 - int(row)
 
 //@ func Verify(stump Stump, delHashes []Hash, proof Proof) (idx []int, err error)
-//@   requires stump.NumLeaves <= pow2(63)
 //@   ghost rootCandidates, candidatePositions, rootPositions
 //@   ensures err == nil ==> len(delHashes) == len(proof.Targets)
 //@   ensures err == nil ==> len(idx) == len(rootCandidates)
@@ -315,32 +312,31 @@ package utreexo
 //@   loop 1: invariant forall k in 1..len(rootIndexes): rootIndexes[k-1] > rootIndexes[k]
 
 //@ func (s *Stump) del(delHashes []Hash, proof Proof) (hashes []Hash, positions []uint64, err error)
-//@   requires s.NumLeaves <= pow2(63)
 //@   ensures s.NumLeaves == old(s.NumLeaves) && len(s.Roots) == old(len(s.Roots))
 //@   ensures err != nil ==> forall k in 0..len(s.Roots): s.Roots[k] == old(s.Roots)[k]
 //@   loop 1: invariant s.NumLeaves == old(s.NumLeaves) && len(s.Roots) == old(len(s.Roots))
 
 //@ func rootsToDestory(numAdds uint64, numLeaves uint64, origRoots []Hash) (res []uint64)
-//@   requires len(origRoots) == int(popcount(numLeaves)) && numLeaves <= pow2(63) && numAdds <= pow2(63) - numLeaves && numAdds < pow2(63)
+//@   requires len(origRoots) == int(popcount(numLeaves)) && numAdds <= 18446744073709551615 - numLeaves && numAdds < pow2(62)
 //@   loop 2: invariant len(roots) == int(popcount(numLeaves))
 //@   loop 2: invariant numLeaves == old(numLeaves) + i && i <= numAdds
-//@   loop 3: invariant len(roots) + int(h) == int(popcount(numLeaves)) && lowOnes(numLeaves, h) && h <= 63 && numLeaves < pow2(63)
+//@   loop 3: invariant len(roots) + int(h) == int(popcount(numLeaves)) && lowOnes(numLeaves, h) && h <= 63 && numLeaves < 18446744073709551615
 //@   loop 3: use popcount_succ(numLeaves, h)
 //@   loop 3: use popcount_lowones(numLeaves, h)
 //@   loop 3: decreases 64 - int(h)
 //@   loop 2: decreases int(numAdds - i)
 
 //@ func (s *Stump) add(adds []Hash) (hashes []Hash, positions []uint64, destroyed []uint64)
-//@   requires len(s.Roots) == int(popcount(s.NumLeaves)) && s.NumLeaves <= pow2(63) && uint64(len(adds)) <= pow2(63) - s.NumLeaves
+//@   requires len(s.Roots) == int(popcount(s.NumLeaves)) && uint64(len(adds)) <= 18446744073709551615 - s.NumLeaves
 //@   ensures len(s.Roots) == int(popcount(s.NumLeaves)) && s.NumLeaves == old(s.NumLeaves) + uint64(len(adds))
 //@   loop 1: invariant len(s.Roots) == int(popcount(s.NumLeaves)) && s.NumLeaves == old(s.NumLeaves) + uint64(i)
-//@   loop 3: invariant len(s.Roots) + int(h) == int(popcount(s.NumLeaves)) && lowOnes(s.NumLeaves, h) && h <= 63 && s.NumLeaves < pow2(63) && s.NumLeaves == old(s.NumLeaves) + uint64(i)
+//@   loop 3: invariant len(s.Roots) + int(h) == int(popcount(s.NumLeaves)) && lowOnes(s.NumLeaves, h) && h <= 63 && s.NumLeaves < 18446744073709551615 && s.NumLeaves == old(s.NumLeaves) + uint64(i)
 //@   loop 3: use popcount_succ(s.NumLeaves, h)
 //@   loop 3: use popcount_lowones(s.NumLeaves, h)
 //@   loop 3: decreases 64 - int(h)
 
 //@ func (s *Stump) Update(delHashes []Hash, addHashes []Hash, proof Proof) (ud UpdateData, err error)
-//@   requires len(s.Roots) == int(popcount(s.NumLeaves)) && s.NumLeaves <= pow2(63) && uint64(len(addHashes)) <= pow2(63) - s.NumLeaves
+//@   requires len(s.Roots) == int(popcount(s.NumLeaves)) && uint64(len(addHashes)) <= 18446744073709551615 - s.NumLeaves
 //@   ensures err != nil ==> s.NumLeaves == old(s.NumLeaves) && len(s.Roots) == old(len(s.Roots))
 //@   ensures err != nil ==> forall k in 0..len(s.Roots): s.Roots[k] == old(s.Roots)[k]
 //@   ensures err == nil ==> ud.PrevNumLeaves == old(s.NumLeaves) && s.NumLeaves == old(s.NumLeaves) + uint64(len(addHashes)) && len(s.Roots) == int(popcount(s.NumLeaves))
@@ -359,7 +355,7 @@ package utreexo
 //@   split h 0 63
 
 //@ func ProofPositions(origTargets []uint64, numLeaves uint64, totalRows uint8) (proofPositions []uint64, nextTargets []uint64)
-//@   requires totalRows <= 63
+//@   requires totalRows <= 64
 //@   loop 1: invariant len(targets) == len(origTargets) && row <= totalRows + 1
 //@   loop 1: decreases int(totalRows) + 1 - int(row)
 //@   loop 2: invariant 0 <= i && i <= len(targets) && len(targets) == len(origTargets)
@@ -369,7 +365,6 @@ package utreexo
 //@   ensures len(res) == len(slice)
 
 //@ func (p *Pollard) Verify(delHashes []Hash, proof Proof, remember bool) (err error)
-//@   requires p.NumLeaves <= pow2(63)
 //@   requires forall k in 0..len(p.Roots): p.Roots[k] != nil
 //@   ghost rootCandidates, rootMatches
 //@   ensures err == nil && len(delHashes) != 0 ==> len(delHashes) == len(proof.Targets) && rootMatches == len(rootCandidates) && len(rootCandidates) > 0
@@ -391,11 +386,11 @@ package utreexo
 
 //@ func (m *MapPollard) verify(delHashes []Hash, proof Proof, remember bool) (err error)
 //@   lock: W
-//@   requires m.TotalRows <= 63 && m.NumLeaves <= pow2(63)
+//@   requires m.TotalRows <= 63
 
 //@ func (m *MapPollard) Verify(delHashes []Hash, proof Proof, remember bool) (err error)
 //@   acquires W
-//@   requires m.TotalRows <= 63 && m.NumLeaves <= pow2(63)
+//@   requires m.TotalRows <= 63
 
 //@ func (m *MapPollard) trimProofPos(proofPos []uint64, numLeaves uint64) (res []uint64)
 //@   pure
@@ -406,7 +401,7 @@ package utreexo
 
 //@ func (m *MapPollard) VerifyPartialProof(origTargets []uint64, delHashes []Hash, proofHashes []Hash, remember bool) (err error)
 //@   acquires W
-//@   requires m.TotalRows <= 63 && m.NumLeaves <= pow2(63)
+//@   requires m.TotalRows <= 63
 //@   loop 1: invariant 0 <= proofHashIdx
 
 // ---------------------------------------------------------------------------
@@ -454,7 +449,7 @@ package utreexo
 //@   loop 3: invariant len(origTargets) == len(proveHashes)
 //@   acquires R
 //@ func (m *MapPollard) GetMissingPositions(origTargets []uint64) (res []uint64)
-//@   requires m.NumLeaves <= pow2(63) && m.TotalRows <= 63
+//@   requires m.TotalRows <= 63
 //@   acquires R
 //@ func (m *MapPollard) GetRoots() (res []Hash)
 //@   requires m.TotalRows <= 63
